@@ -189,8 +189,60 @@ static void check_parse(Kind k, const Val &v, int base, uint32_t casebits, int t
                  kind_name[k], base, ref, term, end - blk.c(), len);
 }
 
+// "Round" values in the rendering base: 1..maxdigits digits, mostly zeros with a few ones, base-1 digits and arbitrary
+// digits in between (5000100000, 0x10000ff00, ...). The *_sparse targets draw every value this way; g_cur_base is the
+// base of the conversion under test.
+static bool g_sparse = false;
+static int g_cur_base = 10;
+static uint64_t sparse_digits(Src &s, int base, uint64_t maxmag)
+{
+    int maxd = 1;
+    for (uint64_t m = maxmag; m >= (uint64_t)base; m /= (uint64_t)base)
+        maxd++;
+    int nd = 1 + (int)s.below((uint64_t)maxd);
+    uint64_t v = 0;
+    for (int i = 0; i < nd; i++)
+    {
+        uint64_t d;
+        switch (s.weighted({9, 2, 1, 2}))
+        {
+        case 0:
+            d = 0;
+            break;
+        case 1:
+            d = 1;
+            break;
+        case 2:
+            d = (uint64_t)base - 1;
+            break;
+        default:
+            d = s.below((uint64_t)base);
+        }
+        if (i == 0 && d == 0)
+            d = 1;
+        v = v * (uint64_t)base + d; // wraps for the longest texts: still a value of the type
+    }
+    return maxmag == ~0ull ? v : v % (maxmag + 1);
+}
+template <class T> static T draw(Src &s)
+{
+    if (!g_sparse)
+        return s.biased_int<T>();
+    using U = typename std::make_unsigned<T>::type;
+    uint64_t mag = sparse_digits(s, g_cur_base, (uint64_t)std::numeric_limits<T>::max());
+    if (std::is_signed<T>::value && s.coin())
+        return (T)(U)(0 - (U)mag);
+    return (T)(U)mag;
+}
+
 static Val gen_val(Src &s, Kind k)
 {
+    if (g_sparse)
+    {
+        static const uint64_t maxmag[] = {127, 32767, 2147483647ull, 9223372036854775807ull, 255, 65535, 4294967295ull, ~0ull};
+        uint64_t mag = sparse_digits(s, g_cur_base, maxmag[k]);
+        return Val{k <= I64 && mag != 0 && s.coin(), mag};
+    }
     switch (k)
     {
     case I8:
@@ -246,6 +298,7 @@ static void t_toa(Src &s, Case &c)
 {
     Kind k = (Kind)s.below(8);
     int base = (int)s.range(2, 36);
+    g_cur_base = base;
     Val v = gen_val(s, k);
     c.log("%s value=%s%llu base=%d", kind_name[k], v.neg ? "-" : "", (unsigned long long)v.mag, base);
     classify(c, k, v, base);
@@ -291,6 +344,7 @@ static void t_ato(Src &s, Case &c)
 {
     Kind k = (Kind)s.below(8);
     int base = (int)s.range(2, 36);
+    g_cur_base = base;
     Val v = gen_val(s, k);
     uint32_t casebits = s.pick({0u, 0xffffffffu, 0x55555555u, 0u}) ^ (s.coin() ? s.u32() : 0);
     int term = gen_terminator(s, base);
@@ -455,7 +509,7 @@ static void t_dprint(Src &s, Case &c)
 #define DEC_S(N, T, CALL)                                                                          \
     case N:                                                                                        \
     {                                                                                              \
-        T x = s.biased_int<T>();                                                                   \
+        T x = (g_cur_base = (N < 14 ? 10 : N < 18 || N >= 22 ? 16 : 2), draw<T>(s));               \
         name = #CALL;                                                                              \
         bool neg = x < 0;                                                                          \
         uint64_t mag = neg ? 0 - (uint64_t)(int64_t)x : (uint64_t)x;                               \
@@ -471,7 +525,7 @@ static void t_dprint(Src &s, Case &c)
 #define FMT_U(N, T, CALL, BASE, STRIP)                                                             \
     case N:                                                                                        \
     {                                                                                              \
-        T x = s.biased_int<T>();                                                                   \
+        T x = (g_cur_base = (N < 14 ? 10 : N < 18 || N >= 22 ? 16 : 2), draw<T>(s));               \
         name = #CALL;                                                                              \
         using UT = std::make_unsigned<T>::type;                                                    \
         ref_render(ref, (UT)x, false, BASE);                                                       \
@@ -518,6 +572,31 @@ static void t_dprint(Src &s, Case &c)
              "%s: emitted '%s' want '%s'%s", name, g_cap.c_str(), want.c_str(),
              strip ? " (after leading zeros)" : "");
 }
+struct SparseMode
+{
+    SparseMode() { g_sparse = true; }
+    ~SparseMode() { g_sparse = false; }
+};
+static void t_dprint_sparse(Src &s, Case &c)
+{
+    SparseMode sm;
+    t_dprint(s, c);
+}
+static void t_toa_sparse(Src &s, Case &c)
+{
+    SparseMode sm;
+    t_toa(s, c);
+}
+static void t_ato_sparse(Src &s, Case &c)
+{
+    SparseMode sm;
+    t_ato(s, c);
+}
+VP_TARGET("dprint_sparse", t_dprint_sparse,
+          "dprint with \"round\" values of the rendering base: 1..max digits, mostly zeros with a few ones, base-1 digits and arbitrary digits (5000100000, 0x100ff0000, "
+          "...), either sign");
+VP_TARGET("toa_sparse", t_toa_sparse, "toa with values that are sparse digit strings in the conversion's own base (see dprint_sparse)");
+VP_TARGET("ato_sparse", t_ato_sparse, "ato with values that are sparse digit strings in the conversion's own base (see dprint_sparse)");
 VP_TARGET("dprint", t_dprint,
           "debug_printdec_*/printhex_*/printbin_* with a capturing debug_putchar: boundary-biased value of the "
           "exact argument type; non-trivial = multi-digit");
